@@ -148,7 +148,7 @@ theorem den_productSafe (es : List Expr) (σ : Val) :
     · simp only [den, denProd_eq]
       exact ((perm_sortBy exprLt _).map _).prod_eq
 
-theorem den_mkFrac {n d e : Expr} (h : mkFrac n d = .ok e) (σ : Val) :
+theorem IdAux.den_mkFrac {n d e : Expr} (h : mkFrac n d = .ok e) (σ : Val) :
     den env σ' e σ = den env σ' n σ / den env σ' d σ := by
   unfold mkFrac at h
   split at h
